@@ -98,6 +98,12 @@ func systematicPkgCases(id *int, profile, scratch string, rng *rand.Rand, tier s
 			c.DebFields = []KV2{{"Bugs", "https://bugs.example/after-description"}}
 			add(c, smallTree(), "desc")
 		}
+		// release spellings (archlinux wants an integer pkgrel; the others take the string as written)
+		for _, rel := range []string{"0", "00", "7", "012", "1.2", "rc1"} {
+			c := baseCfg("relpkg2")
+			c.Release = rel
+			add(c, smallTree(), "release")
+		}
 		// relations: each list alone, long lists
 		for i := 0; i < 6; i++ {
 			c := baseCfg("relpkg")
